@@ -940,7 +940,8 @@ class Evaluator:
             else:
                 break
         sub = Evaluator(self.prog, inline_depth=self.inline_depth, opaque_local=self.opaque_local)
-        sub.models = self.models
+        sub.models, sub.const_models = self.models, self.const_models
+        sub._skip_depth = getattr(self, "_skip_depth", 0)
         sub.summarize_loops = self.summarize_loops
         env0 = {l: v for l, v in env.items() if l not in asg}
         tree = sub.eval_loop_body(fn, head, set(body), tracked, env0)
@@ -1039,9 +1040,11 @@ class Evaluator:
         # ways out other than the normal exit: when the function returns an error on every path that leaves the loop there
         # (decided with the environment the path really has, not the havocked one), that arm is just that error
         err_arm = {}
-        if len(exits) > 1 and self._nest < 6:
+        if len(exits) > 1 and self._nest < 6 and getattr(self, "_skip_depth", 0) < 3:
             try:
                 sub = Evaluator(self.prog, inline_depth=self.inline_depth, opaque_local=self.opaque_local)
+                sub._skip_depth = getattr(self, "_skip_depth", 0) + 1
+                sub.deadline = self.deadline
                 sub.models, sub.const_models = self.models, self.const_models
                 sub.summarize_loops = True
                 asg0 = set(assigned)
